@@ -1,20 +1,24 @@
 #!/usr/bin/env python3
 """writes /verif/MANIFEST.json from the table below (kept in one place so it stays valid)."""
 import json
+import importlib
+import os
+import re
+import sys
 
-CLAIMED = {
-    "C19": dict(
-        text="Coq theorems (all templates, capture tables, matchers): interpolate = reference-grammar expansion; "
-             "Replacer::replace_all = text between successive matches + expansions + tail; nothing dropped on a "
-             "terminated line; D2 refuted by witness. Tie to the code: hand-written model run (extracted OCaml) "
-             "against the real crates on generated cases, plus the regex crate as oracle on every matching line.",
-        note="trusted: Coq kernel, extraction, OCaml driver, Rust harness; regex-automata modelled as a Section "
-             "variable (captures tabulated per case); multi-line (-U) replacement path is exercised by the oracle "
-             "only, not modelled",
-        technique="Coq proof over executable model + extracted-model/implementation correspondence + regex-crate oracle",
-        design="§7 C19"),
-}
+HERE = os.path.dirname(os.path.abspath(__file__))
+sys.path.insert(0, HERE)
 
+# every tools/props/Cxx.py with a MANIFEST dict(text, note, technique, design) is a claimed property
+CLAIMED = {}
+for f in sorted(os.listdir(os.path.join(HERE, "props"))):
+    m = re.match(r"(C\d\d)\.py$", f)
+    if m:
+        mod = importlib.import_module("props." + m.group(1))
+        if hasattr(mod, "MANIFEST"):
+            CLAIMED[m.group(1)] = mod.MANIFEST
+
+# reasons for properties without a registered check
 NOT_YET = {
 }
 
@@ -55,7 +59,7 @@ def main():
         checks=checks,
         notes="see DESIGN.md; known findings in known_findings.txt",
         not_applicable=na)
-    open("/verif/MANIFEST.json", "w").write(json.dumps(m, indent=1) + "\n")
+    open(os.path.join(os.path.dirname(HERE), "MANIFEST.json"), "w").write(json.dumps(m, indent=1) + "\n")
 
 
 if __name__ == "__main__":
